@@ -10,6 +10,7 @@ from mc.checks import c10, c11
 import pandapipes as pp
 
 ID = "C08"
+CASE_WEIGHT = 12   # relative cost of one case (pool sizing)
 LEVEL = "exploration"
 RULE = ("bases: scope H (skeletons n<=3/4, every feeder, water and gas, d<=1 over branch kinds and heights; gas bases with "
         "200 m height steps) for pn_bar; scope T topologies (d<=1) and consumer ladders (all mode assignments to <=2 rungs) "
